@@ -404,7 +404,8 @@ Fixpoint interleave {A} (a b : list A) : list A :=
   | _, _ => []
   end.
 
-(* parse_assign + connect_wires_for_assign; ports of SDN_VERILOG_ASSIGNMENT_w: i = 0, o = 1, pin k = ordinal k *)
+(* parse_assign + connect_wires_for_assign; ports of SDN_VERILOG_ASSIGNMENT_w: i = 0, o = 1, pin k = ordinal k.
+   The wire lists are most significant first; pin k takes out_wires[-1-k] / in_wires[-1-k] (bit k from the low end) *)
 Definition assign_item (lhs rhs : datom) (acount : nat) (d : edef) : result edef :=
   let* (d1, kl) := var_inst lhs d in
   let* (d2, kr) := var_inst rhs d1 in
@@ -412,8 +413,8 @@ Definition assign_item (lhs rhs : datom) (acount : nat) (d : edef) : result edef
   let* ins := wires_from kr (atom_l rhs) (atom_r rhs) d2 in
   let w := Nat.min (length outs) (length ins) in
   let* (d3, ii) := add_inst {| ei_name := assign_name w acount; ei_ref := RAssign w; ei_params := []; ei_attrs := [] |} d2 in
-  connect_all (interleave (combine (firstn w outs) (map (POuter ii 1) (seq 0 w)))
-                          (combine (firstn w ins) (map (POuter ii 0) (seq 0 w)))) d3.
+  connect_all (interleave (combine (firstn w (rev outs)) (map (POuter ii 1) (seq 0 w)))
+                          (combine (firstn w (rev ins)) (map (POuter ii 0) (seq 0 w)))) d3.
 
 (* ---------- instances ---------- *)
 (* parse_port_map_single: .pname(e) on instance ii (of definition cur) whose reference is definition rk *)
@@ -521,7 +522,14 @@ Definition module_decl (m : vmodule) (s : estate) : result estate :=
    referenced definition had when the instance's turn came: an unnamed port of the width of the expression is made *)
 Definition pos_conn (cur ii rk : nat) (fresh : bool) (index : nat) (oe : option dexpr) (s : estate) : result estate :=
   match oe with
-  | None => Err EAssert         (* an empty position: "expected valid port identifier" (open finding V06-positional-empty) *)
+  | None =>
+      (* an empty position: nothing is connected; beyond the ports of the referenced definition an unnamed one-bit
+         port still takes the position (populate_new_port(port, None, 0, 0, None)) *)
+      if fresh
+      then let rd := get_def rk s in
+           Ok (put_def rk (set_ports rd (ed_ports rd ++ [{| ep_name := None; ep_dir := None;
+                                                            ep_b := new_bundle (Some 0) (Some 0) 0 |}])) s)
+      else Ok s
   | Some e =>
       let* (d1, wires) := expr_wires e (get_def cur s) in
       let s1 := put_def cur d1 s in
